@@ -16,7 +16,7 @@ import AnyTLS.Gen
 
 namespace AnyTLS.Relay
 
-open Gen (WriteKind SliceKind RelaySite)
+open Gen (WriteKind SliceKind RelaySite EndKind)
 
 /-- `write_all` against per-call capacities: the bytes the sink took and, if everything was taken, the capacities
     left; `none` = the sink failed on the way (capacity 0 = `WriteZero`, an exhausted list = the connection broke) -/
@@ -64,6 +64,15 @@ def run (w : WriteKind) (sl : SliceKind) : (buf : Bytes) → (reads : List Bytes
     | (d, some caps') =>
       let o := run w sl (fill buf chunk) rest caps'
       { o with delivered := d ++ o.delivered }
+
+/-- what the sink's peer has observed once the task of the loop is over: the bytes, and whether an end of stream follows
+    them (the code after the loop runs however the loop ended; nothing is written after it) -/
+structure SinkView where
+  bytes : Bytes
+  ended : Bool
+  deriving DecidableEq, Repr
+
+def finish (e : EndKind) (o : Out) : SinkView := { bytes := o.delivered, ended := e != .nothing }
 
 /-- a site whose loop is lossless by construction -/
 def sound (s : RelaySite) : Bool := s.write != .writeOnce && s.slice == .prefixN
